@@ -135,3 +135,16 @@ class DDecoTrio(PoolDecorator, _Base):
         self._constructed(name, fail_after)
 
     run = _beat_trio
+
+
+class Site:
+    """a namespace class: ``__type__`` may name an object nested in a class
+    (``vp.fx_daemon.Site.DPool``), not only a module attribute"""
+
+    class Inner:
+        pass
+
+
+for _n in ("DPool", "DDeco", "DBadCtor", "DCtrlTrio", "DCtrlAsyncio", "DCtrlThread", "DDecoTrio"):
+    setattr(Site, _n, globals()[_n])
+    setattr(Site.Inner, _n, globals()[_n])
